@@ -74,6 +74,12 @@ func c07Directed() []string {
 			"sort_by("+recs+", &k)[*].k", "sort_by("+recs+", &s)[*].s", "sort_by("+nums+", &@)", "max_by("+recs+", &k).k", "min_by("+recs+", &s).s",
 			"group_by("+recs+", &s) | keys(@) | sort(@)", nums+" | sort(@)", nums+" | reverse(@)")
 	}
+	// integer arguments in every spelling and inexact decimal arithmetic: anything process-wide that
+	// number handling touches (rounding modes, caches) is then written and read concurrently
+	out = append(out, "find_first('abcabc', 'c', `1.0`)", "find_first('abcabc', 'c', `1e0`, `5.0`)", "find_last('abcabc', 'b', `0.0`, `50e-1`)", "split('a,b,c', ',', `1.0`)", "split('a,b,c', ',', `2e0`)", "replace('aaa', 'a', 'b', `2.0`)", "replace('aaa', 'a', 'b', `20e-1`)",
+		"pad_left('ab', `4.0`, '.')", "pad_right('ab', `5e0`, '.')", "pad_left('ab', `0.4e1`)", "[pad_left('ab', `4.0`, '.'), `2` / `3`]", "`2` / `3`", "`1` / `7` * `3`", "`0.1` + `0.2`", "sum(nums) / `7`", "avg(nums) / `3`", "nums[*] | map(&(@ / `3`), @)", "`1e34` + `1`", "`9999999999999999999999999999999999` + `0.5`",
+		"`10` // `3`", "`10` % `3`", "to_number('0.1') * `3`", "abs(`-1` / `3`)", "ceil(`2` / `3`)", "floor(`-2` / `3`)", "`2` / `3` == `0.6666666666666666666666666666666667`", "to_string(`1` / `3`)", "sort([`1` / `3`, `0.3333`])", "max([`2` / `3`, `0.6667`])",
+		"find_first('abcabc', 'c', `1.5`)", "split('a,b', ',', `0.5`)", "pad_left('ab', `2.5`)", "replace('aaa', 'a', 'b', `-1`)", "find_first('abc', 'b', `2.99999999999999999999999999999999999`)", "pad_left('ab', `3.0000000000000000000000000000000000001`)")
 	out = append(out, "nested[*].sort(@)", "nested[*].reverse(@)", "nested[].sort_by(@, &@)", "sort(nested[0])", "merge(objs.a, objs.b)", "merge(objs, `{\"c\": 1}`)", "merge(`{\"c\": 1}`, objs.a)", "zip(nums, strs)[0]", "values(objs)[*].p", "from_items(items(objs.a))", "nums[::-1]", "nums[?@ > `5`]", "join(',', strs)", "sort(strs)[0]", "sort(keys(objs))")
 	return out
 }
@@ -123,10 +129,10 @@ func c07Round(c *Ctx, idx int) {
 			g := &gen.ExprGen{R: r, Root: docs[d], Funcs: 40, Lets: true, Arith: true}
 			text = ref.Print(g.Expr(docs[d], 3))
 		}
-	have:
 		if strings.Contains(text, "pad_") {
-			continue
+			continue // generated widths may be huge
 		}
+	have:
 		m := ref.Search(text, docs[d])
 		enum := Enumerates(text)
 		if enum && m.Unspec {
